@@ -50,6 +50,12 @@ def alphabet(tier):
         if_(CMP("<", V("a"), V("b"))),
         if_(["and", [CMP(">", V("<state>y"), C(0)), CMP("<", V("n"), C(3))]]),
         assign("arr", V("b"), loops=[["i", V("n"), V("m")]]),
+        # implicit solves (declared sets only: no back end executes them): unknown with a name of its own, and an unknown
+        # that shares its name with the variable used as initial guess
+        gen.implicit(["a"], ["u"], [S(["prod", [V("u"), V("u")]], ["prod", [C(-1), V("b")]])], [["guess", V("n")]]),
+        gen.implicit(["<p>q"], ["a"], [S(["prod", [V("a"), V("a")]], ["prod", [C(-1), V("m")]])], [["guess", V("a")]]),
+        gen.implicit(["a", "b"], ["u", "w"], [S(V("u"), V("w"), V("<state>y")), S(V("u"), ["prod", [C(-1), V("w")]], V("n"))],
+                     [["guess", V("m")], ["tol", V("<dt>")]]),
     ]
     return a
 
